@@ -64,7 +64,7 @@ def gen_case(rng, tier, index):
                       "drop": rng.choice([["lib", "root"], ["lib", "root"], ["lib", "mid", "root"]])})
         return c
     feats = {"checkoutscript"} | set(rng.sample(["import", "vars", "tools", "provideVars", "diamond", "fingerprint", "fingerprint",
-                                                 "nonreloc", "depenv", "classes"], rng.randint(2, 6)))
+                                                 "nonreloc", "depenv", "classes", "twins"], rng.randint(2, 6)))
     model = projgen.gen_valid_project(rng, nmin=3, nmax=6, features=feats)
     wss = ["A", "B", "C"][: rng.choice([2, 2, 3])]
     states = {w: model for w in wss}
